@@ -428,8 +428,14 @@ class Lockstep:
                 self.bad("C07", key, f"wake of node {exp.wake} by {line!r:.60}: released {got_sets} expected {want_flush}")
             rest = [w for w in rest if w not in got_sets]
         else:
+            # lines that are specified reactions of this step (e.g. a req reply that happens to spell the same text as a
+            # parked command) are not leaks: only what is left after removing them is compared with the buffer
+            unexplained = list(rest)
+            for expected_line in want_other:
+                if expected_line in unexplained:
+                    unexplained.remove(expected_line)
             parked_lines = set(self.model.parked.values())
-            leaked = [w for w in rest if w in parked_lines]
+            leaked = [w for w in unexplained if w in parked_lines]
             if leaked:
                 self.bad("C07", "flush-at-non-wake", f"{line!r:.60} is no wake message but released {leaked}")
         self.stats["clause:reactions"] += 1
